@@ -8,6 +8,9 @@ use std::path::Path;
 use serde_json::Value;
 
 pub fn main() {
+    // Verification hooks (see src/lib.rs, mod verif_hooks) are compiled only with
+    // RUSTFLAGS="--cfg jmespath_rs_verif"; declare the name for check-cfg.
+    println!("cargo:rustc-check-cfg=cfg(jmespath_rs_verif)");
     let out_dir = env::var_os("OUT_DIR").expect("OUT_DIR not specified");
     let bench_path = Path::new(&out_dir).join("benches.rs");
     let mut bench_file = File::create(&bench_path).expect("Could not create file");
